@@ -174,16 +174,26 @@ def step (st : St) (ts : List String) : St × String :=
     | _, _ => (st, "bad-op")
   | "tabw" :: args =>
     match tableArgs args with
-    | some (cols, items, lens) => (st, hex (Csv.writeItems cols items) ++ lensText lens)
+    | some (cols, items, lens) => (st, hex (Csv.writeItemsG 44 46 cols items) ++ lensText lens)
     | none => (st, "bad-op")
   | "tabrt" :: args =>
     match tableArgs args with
-    | some (cols, items, _) => (st, dumpTable (Csv.readTable (Csv.writeItems cols items)))
+    | some (cols, items, _) => (st, dumpTable (Csv.readTable (Csv.writeItemsG 44 46 cols items)))
     | none => (st, "bad-op")
   | "tabrtx" :: args =>
     match tableArgs args with
-    | some (cols, items, _) => (st, dumpTable (Csv.readTable (Csv.writeItems cols items)))
+    | some (cols, items, _) => (st, dumpTable (Csv.readTable (Csv.writeItemsG 44 46 cols items)))
     | none => (st, "bad-op")
+  | "tabws" :: sep :: dec :: args =>
+    match tableArgs args, sep.toNat?, dec.toNat? with
+    | some (cols, items, lens), some s, some d =>
+      (st, hex (Csv.writeItemsG (UInt8.ofNat s) (UInt8.ofNat d) cols items) ++ lensText lens)
+    | _, _, _ => (st, "bad-op")
+  | "tabrts" :: sep :: dec :: args =>
+    match tableArgs args, sep.toNat?, dec.toNat? with
+    | some (cols, items, _), some s, some d =>
+      (st, dumpTable (Csv.readTable (Csv.writeItemsG (UInt8.ofNat s) (UInt8.ofNat d) cols items)))
+    | _, _, _ => (st, "bad-op")
   | ["tabread", h] =>
     match unhex h with
     | some t => (st, dumpTable (Csv.readTable t))
